@@ -30,7 +30,8 @@ def run(check_id: str, clause: str, case, jobs: t.Sequence[t.Sequence[t.Any]], j
         except simthreads.Wedged as e:
             raise common.HarnessError(str(e))
     try:
-        alone = [[job_fn(j) for j in js] for js in jobs]
+        with common.CpuBudget(20.0):  # (work outside the interpreter's line events - a regular expression that backtracks - ends here)
+            alone = [[job_fn(j) for j in js] for js in jobs]
     except Exception as e:  # noqa: BLE001 - fails even with nothing else running
         return {"viol": common.violation(check_id, clause, "sequential", type(e).__name__, common.innermost_repo_frame(e), "",
                                          f"a computation on well-formed input failed with nothing else running: {e!r}; jobs={str(jobs)[:300]}"),
